@@ -102,7 +102,7 @@ def obligations(tier):
                 pre=pres_of(leaves, strlen),
                 shape=shape,
                 twin_codes=(100,),
-                timeout=60,
+                timeout=60 if not thorough else 200,
             )
         )
     n = 0
